@@ -97,7 +97,7 @@ impl SocketSend for RouterSocket {
                 let sent = peer.send_queue.send(Message::Message(message)).await;
                 drop(peer);
                 if let Err(e) = sent {
-                    self.backend.peer_disconnected(&peer_id);
+                    self.backend.forget_peer(&peer_id).await;
                     return Err(e.into());
                 }
                 Ok(())
